@@ -16,7 +16,8 @@ def thorough_families():
         for c in (n + "-X", n + "_X", n + "2", n[:-1]):
             if c and c not in H.MODELS and c not in names and c[-1] != "-" and len(c) > 1:
                 names.append(c)
-    return [tuple(names[i:i + 24]) for i in range(0, len(names), 24)]
+    # statement level ("every name the user registers"): names with characters that are special in regular expressions
+    return [tuple(names[i:i + 24]) for i in range(0, len(names), 24)] + [("MY.MODEL", "A+B", "PHSP.2", "B(s)X")]
 
 
 def run(report, tier):
